@@ -14,7 +14,7 @@
 (* 2^24 for random numbers (-1 if not integral); parts = calendar          *)
 (* components of a DateTime result / aparts of a DateTime argument.        *)
 (***************************************************************************)
-EXTENDS VariantOps, Json, TLC
+EXTENDS VariantOps, Json, TLC, Held
 VARIABLE l
 Trace == ndJsonDeserialize("trace.ndjson")
 F(ok, name) == IF ok THEN "" ELSE name \o "; "
@@ -173,7 +173,7 @@ Init == l = 1
 Next ==
   /\ l <= Len(Trace)
   /\ l' = l + 1
-  /\ LET f == Fails(Trace[l]) IN f = "" \/ PrintT("VERIF-FAIL " \o ToString(l) \o " " \o f)
+  /\ LET f == Fails(Trace[l]) IN Report(l, f, Trace[l])
 Spec == Init /\ [][Next]_l
 Accepted == TLCGet("stats").diameter - 1 = Len(Trace)
 =============================================================================
